@@ -65,6 +65,7 @@ func T1(rowids []int64, big int) dbgen.Table {
 		{Name: "sqlite_autoindex_t1_1", Cols: []dbgen.IdxCol{{Col: 3}}},
 		{Name: "t1_bc", SQL: "CREATE INDEX t1_bc ON t1 (b DESC, c)", Cols: []dbgen.IdxCol{{Col: 1, Coll: "nocase", Desc: true}, {Col: 2}}},
 		{Name: "t1_c_rt", SQL: "CREATE INDEX t1_c_rt ON t1 (c COLLATE RTRIM)", Cols: []dbgen.IdxCol{{Col: 2, Coll: "rtrim"}}},
+		{Name: "t1_b_bin", SQL: "CREATE INDEX t1_b_bin ON t1 (b COLLATE BINARY, c DESC)", Cols: []dbgen.IdxCol{{Col: 1, Coll: "binary"}, {Col: 2, Desc: true}}},
 		{Name: "t1_part", SQL: "CREATE INDEX t1_part ON t1 (c) WHERE a > 3", Cols: []dbgen.IdxCol{{Col: 2}},
 			Where: func(rowid int64, _ []interface{}) bool { return rowid > 3 }, WhereSQL: "a > 3"},
 	}
